@@ -123,6 +123,23 @@ func (r *Run) requireSucc(id, why string, f *ssa.Function, ctx core.Ctx, ctxName
 	return nil, false
 }
 
+// requireSuccAlt: requireSucc with a second spelling of the same requirement (a helper's call replaced by what the
+// helper established, when the helper was inlined by hand); the first set is the one reported when neither holds.
+func (r *Run) requireSuccAlt(id, why string, f *ssa.Function, ctx core.Ctx, ctxName string, patsA, patsB []string) (core.Bind, bool) {
+	if f == nil {
+		return nil, false
+	}
+	s := r.succ(f, ctx)
+	if s.HasSuccess {
+		if _, ok := core.MatchAll(s.Facts, patsA, nil); !ok {
+			if _, okB := core.MatchAll(s.Facts, patsB, nil); okB {
+				return r.requireSucc(id, why, f, ctx, ctxName, patsB...)
+			}
+		}
+	}
+	return r.requireSucc(id, why, f, ctx, ctxName, patsA...)
+}
+
 func bindStr(b core.Bind) string {
 	var ks []string
 	for k := range b {
